@@ -86,6 +86,8 @@ def build_data(case):
     ny, nx = case['shape']
     rng = np.random.default_rng(case['seed'])
     d = rng.integers(-8, 64, (ny, nx)) / 8.0
+    # (background-subtracted images: meshes straddle zero)
+    d = d + case.get('offset', 0.0)
     if case['gradient']:
         d = d + (np.arange(nx) // 2)[None, :] * case['gradient'] / 4.0
     for (y, x, a) in case['sources']:
@@ -366,7 +368,8 @@ def mesh_cases(draw, filt=True):
         'exclude_percentile': draw(st.sampled_from([0.0, 10.0, 50.0, 100.0, 33.3,
                                                     draw(st.floats(0, 100))])),
         'filter_size': draw(st.sampled_from([1, 1, 3, [1, 3]])) if filt else 1,
-        'filter_threshold': draw(st.sampled_from([None, None, 3.03125, 100.0])),
+        'filter_threshold': draw(st.sampled_from([None, None, 3.03125, 100.0, 0.0])),
+        'offset': draw(st.sampled_from([0.0, 0.0, -3.5, -3.375])),
         'sigma_clip': draw(st.sampled_from([None, [3.0, 10], [2.0, 3]])),
         'est': draw(st.sampled_from(EST)), 'rms': draw(st.sampled_from(RMS)),
         'interp': draw(st.sampled_from(['zoom', 'zoom', 'idw'])),
